@@ -35,7 +35,11 @@ inductive Cmd
 def pCmd : P Cmd := do
   let t ← word
   match t with
-  | "dc" => do let p ← nat; let a ← optOf (listOf int); pure (.op (.defClass p a))
+  | "dc" => do
+      -- the last token says which non-render mix-in bases the harness gives the class (before / after its
+      -- render base); mix-ins are invisible to the model: `mro` is the chain of *render* ancestors only
+      let p ← nat; let a ← optOf (listOf int); let _mix ← nat
+      pure (.op (.defClass p a))
   | "mk" => do let rc ← nat; let i ← optOf nat; let nss ← listOf pNs; pure (.op (.mk rc i nss))
   | "upn" => do
       let s ← nat; let n ← pNs; let nss ← listOf pNs; let f ← pFields
